@@ -926,9 +926,8 @@ class Gen:
               "key": lambda: self.key_value(), "active": lambda: r.choice([True, 1, False, 0])}
         k = r.choice([2, 2, 3, 3, 4])
         defaults = [[n, (const(v) if n == "duration" else v)] for n, v in self.default_overrides(0.25)]
-        defaults = self.padded(defaults, k)
+        defaults = self.padded(defaults, 2 * k)
         cur_dur = dict((n, v) for n, v in defaults).get("duration", 1)
-        forced_gap = r.randrange(k - 1)                     # at least one re-assignment falls between two events
         evs, changes, strata = [], [], []
 
         def assignment(n_events_left):
@@ -950,36 +949,48 @@ class Gen:
             changes.append([-1, kvs])
             strata.append("reconfigured.after-schedule-before-first-tick")
             cur_dur = dict((n, v) for n, v in kvs).get("duration", cur_dur)
-        s = 0
+        base = []
         for j in range(k):
             ev = self.valid_event(0.75)
             # most parameters are left to the defaults, so that the defaults in force are what decides the message
             ev = [kv for kv in ev if kv[0] not in ("dur", "duration") and not (kv[0] in self.DEFAULTABLE and r.random() < 0.55)]
             if r.random() < 0.5:
-                d = self.dur_value()
-                ev.append([r.choice(["duration", "duration", "dur"]), d])
-            else:
-                d = cur_dur
+                ev.append([r.choice(["duration", "duration", "dur"]), self.dur_value()])
             r.shuffle(ev)
-            evs.append(ev)
+            base.append(dedupe(ev))
+        # sometimes the stream yields the SAME dictionary objects a second time (PSequence(dicts, 2)): the second pass is
+        # completed by the defaults then in force, not by what the first pass found
+        reps = 1
+        if k <= 3 and r.random() < 0.25 and not any(has_pattern(v) for ev in base for _k, v in ev):
+            reps = 2
+            strata.append("reconfigured.replayed-dicts")
+        evs = base * reps
+        n = len(evs)
+        forced_gap = r.randrange(n - 1)                     # at least one re-assignment falls between two events
+        s = 0
+        for j, ev in enumerate(evs):
+            given = [v for kk, v in ev if kk in ("dur", "duration")]
+            d = given[0] if given else cur_dur
             s_next = s + int(num(d) * tpb)
-            if j < k - 1 and (j == forced_gap or r.random() < 0.3):
+            if j < n - 1 and (j == forced_gap or r.random() < 0.3):
                 at = r.randint(s, s_next - 1)
-                kvs = assignment(k - 1 - j)
+                kvs = assignment(n - 1 - j)
                 changes.append([at, kvs])
                 strata.append("reconfigured.between-events")
                 if at > s:
                     strata.append("reconfigured.while-a-note-may-sound")
-                cur_dur = dict((n, v) for n, v in kvs).get("duration", cur_dur)
+                cur_dur = dict((nm, v) for nm, v in kvs).get("duration", cur_dur)
             s = s_next
         evs = [dedupe(ev) for ev in evs]
         for ev in evs:
             for _k, v in ev:
                 if notation_like(v):
                     raise CheckError("generator emitted a string the notation parser would take: %r" % (v,))
-        case = {"tpb": tpb, "nticks": min(80, s + 10), "muted": False, "mode": "pseq", "defaults": defaults,
+        case = {"tpb": tpb, "nticks": min(80, s + 8), "muted": False, "mode": "pseq", "defaults": defaults,
                 "events": evs, "direct": evs[0], "changes": changes}
-        strata.append("reconfigured.events%d" % k)
+        if reps > 1:
+            case["replay_period"] = k
+        strata.append("reconfigured.events%d" % n)
         return case, strata
 
 
@@ -1073,12 +1084,12 @@ def generate(run, scales, note_names, n_total):
             case["replay_period"] = k
         add(case, "sequence", ["sequence.%d" % k] + (["sequence.replayed-dicts.x%d" % reps] if reps > 1 else []))
     # E: a later dictionary of a stream is malformed (the rejection clause holds for every dictionary, not the first only)
-    for _ in range(max(40, int(n_total * 0.04))):
+    for _ in range(max(40, int(n_total * 0.03))):
         case, strata = g.late_malformed()
         add(case, "late-malformed", strata)
     # F: timeline.defaults re-assigned between two events of a running track (the defaults in force when a dictionary
     #    is due are the ones that complete it)
-    for _ in range(max(40, int(n_total * 0.045))):
+    for _ in range(max(40, int(n_total * 0.035))):
         case, strata = g.reconfigured()
         add(case, "reconfigured", strata)
     run.cov["type_key_subsets_reached"] = "%d of 128 subsets of {action, patch, control, program_change, osc_address, synth, note|degree}" % len({(m, s != "none") for m, s in subsets_seen})
@@ -1182,7 +1193,7 @@ def run_cases(run, cases, scales, note_names):
                                                      "when it is due, laid out on the documented time grid",
                         "python": snippet(c)})
         # ---- oracle for replayed dictionaries: every pass over the same dictionary objects performs the same messages ----
-        if c.get("replay_period") and res["raise"] is None and c["nticks"] < 80 \
+        if c.get("replay_period") and res["raise"] is None and c["nticks"] < 80 and not c.get("changes") \
                 and not any(has_pattern(v) for _n, v in c["defaults"]):
             run.cov["oracle_evaluations"] += 1
             reps = len(c["events"]) // c["replay_period"]
